@@ -219,11 +219,29 @@ func (x *vsC30) installHooks() {
 		x.sched.BeforeLock(l)
 	}
 	verifhook.YieldFn = func(owner any, site string) {
+		if !vsC30Site(site) {
+			return
+		}
 		if !x.oracleLockSafe && vsUnderOracleLock() {
 			return
 		}
 		x.sched.Yield(owner, site)
 	}
+}
+
+// vsC30Site selects the yield sites of /repo that take part in C30's schedules:
+// the transaction, oracle, watermark and commit path. Sites inside the
+// memtable index, LSM, value log or WAL stay pass-through: they do not decide
+// which transaction sees which value, and some of them (skiplist tower heights
+// drawn from the runtime's per-process random source) fire a different number
+// of times in every process, which would make a schedule unreplayable.
+func vsC30Site(site string) bool {
+	for _, p := range []string{"wm.", "txn.", "oracle.", "orc.", "db.", "commit.", "write."} {
+		if strings.HasPrefix(site, p) {
+			return true
+		}
+	}
+	return false
 }
 
 func vsCounterKey(i int) []byte { return []byte("ctr:" + strconv.Itoa(i)) }
